@@ -3,6 +3,8 @@ import ErbiumModel.Judge.C12
 import ErbiumModel.Judge.Pool
 import ErbiumModel.Judge.Dhcp
 import ErbiumModel.Judge.C08
+import ErbiumModel.Judge.C16
+import ErbiumModel.Judge.C06
 /-! Line-protocol driver. stdin: `<suite> <input tokens> => <implementation observation>`;
     stdout: `<correspondence verdict> | <oracle verdict>` per line. -/
 open Erbium Util
@@ -17,6 +19,9 @@ def judge (suite : String) (inp obs : List String) : Verdict :=
   | "dhcp" => Judge.Dhcp.judge inp obs
   | "acl" => Judge.C08.judgeAcl inp obs
   | "leasejson" => Judge.C08.judgeLeaseJson inp obs
+  | "bucket" => Judge.C16.judgeBucket inp obs
+  | "ratelimit" => Judge.C16.judgeRatelimit inp obs
+  | "cache" => Judge.C06.judge inp obs
   | _ => badInput ("unknown-suite:" ++ suite)
 
 def judgeLine (line : String) : String :=
